@@ -266,7 +266,10 @@ func (d *Decoder) Write(p []byte) (n int, err error) {
 			// reading code earlier should already catch
 			// overlong things and return ErrStringLength,
 			// but keep this as a last resort.
-			const varIntOverhead = 8 // conservative
+			// A field is at most a type byte plus two strings, each
+			// preceded by a length integer of up to 10 bytes (HPACK
+			// integers may be padded with continuation bytes).
+			const varIntOverhead = 11 // conservative
 			if d.maxStrLen != 0 && int64(len(d.buf)) > 2*(int64(d.maxStrLen)+varIntOverhead) {
 				return 0, ErrStringLength
 			}
